@@ -66,7 +66,7 @@ def train_to_consist_case(i, npts):
     claims = [
         Claim("the consist is asked for exactly the wheel power the train model computed", lambda c: EQ(c.post["loco_con.state.pwr_out_req"], c.post["state.pwr_whl_out"]), role="demand_handoff"),
         Claim("the locomotive is asked for what the consist assigned", lambda c: EQ(c.post["loco_con.state.pwr_out"], c.post["loco_con.loco_vec.0.state.pwr_out"])),
-        Claim("positive demand: the consist reports delivering the train's wheel power", lambda c: IMP(GT(c.post["state.pwr_whl_out"], 0), EQ(c.post["loco_con.state.pwr_out"], c.post["state.pwr_whl_out"])), role="delivered_equals_demand"),
+        Claim("positive demand: the consist reports delivering the train's wheel power", lambda c: IMP(XGT(c.post["state.pwr_whl_out"], 0), EQ(c.post["loco_con.state.pwr_out"], c.post["state.pwr_whl_out"])), role="delivered_equals_demand"),
         Claim("train and consist accumulate with the same step size", lambda c: AND(
             EQ(c.post["state.energy_whl_out"], c.pre["state.energy_whl_out"] + c.post["state.pwr_whl_out"] * dtr(c)),
             EQ(c.post["loco_con.state.energy_out"], c.pre["loco_con.state.energy_out"] + c.post["loco_con.state.pwr_out"] * dtr(c)),
